@@ -182,7 +182,7 @@ def run_rl(desc, ctx, out):
         p0 = len(policy_log)
         with CM.RunMonitor(cal, snapshots=False) as mon:
             try:
-                with quiet(), G.time_limit(60):
+                with quiet(), G.time_limit(180):
                     cal.calibrate(m)
             except G.Timeout:
                 out["inconclusive"] = "RL calibrate() did not return within 60 s"
